@@ -13,8 +13,9 @@ EXTENDS Integers, Sequences, FiniteSets
 
 Methods == {"POST", "GET", "PUT", "DELETE", "post"}
 Targets == {"U", "CS", "SS", "BD", "unknown"}
+\* "-longer" classes are other media types that merely start like a supported one
 CTypes  == {"unary", "unary-charset", "unary-upper", "json", "json-charset", "stream", "stream-param",
-            "text", "none", "garbage"}
+            "text", "none", "garbage", "unary-longer", "json-longer", "stream-longer", "unary-prefix"}
 Hdrs    == {"none", "valid-bin", "bad-bin"}
 Timeouts == {"none", "ok", "bad"}
 Bodies  == {"valid", "empty", "garbage", "truncated"}
